@@ -30,7 +30,7 @@ static BULK: std::sync::OnceLock<Vec<Made>> = std::sync::OnceLock::new();
 static FLOOD: std::sync::OnceLock<Vec<[u8; 32]>> = std::sync::OnceLock::new();
 /// how many distinct encodings call 15 pushes through the library's point decoding
 pub static FLOOD_N: std::sync::atomic::AtomicUsize = std::sync::atomic::AtomicUsize::new(40000);
-pub const NCALLS: usize = 16;
+pub const NCALLS: usize = 18;
 
 fn digest(parts: &[&[u8]]) -> String {
     let mut h = Sha3_256::new();
@@ -168,6 +168,19 @@ pub fn call_opt(c: usize, shared: Option<&RangeParameters<P>>) -> String {
             let stmts: Vec<RangeStatement<P>> = bulk.iter().map(|m| m.stmt.clone()).collect();
             let proofs: Vec<RangeProof<P>> = bulk.iter().map(|m| RangeProof::<P>::from_bytes(&m.proof.to_bytes()).unwrap()).collect();
             verify_digest(&stmts, &proofs, VerifyAction::VerifyOnly)
+        },
+        16 => {
+            // a long proof (bits*aggregation = 1024: ten folding rounds, generator vectors of 1024 points): the same bytes every time
+            let a = make(params(64, 16, 1), 16, 1, false, 31);
+            digest(&[&a.proof.to_bytes()])
+        },
+        17 => {
+            // a batch refused for TWO different reasons (three parameter objects: the second disagrees on the bit length, the
+            // third on the extension degree): the error VALUE is part of the result and must be the same every time
+            let a = make(params(8, 1, 1), 1, 1, false, 41);
+            let b = make(params(16, 1, 1), 1, 1, false, 42);
+            let c3 = make(params(8, 1, 2), 1, 2, false, 43);
+            verify_digest(&[a.stmt, b.stmt, c3.stmt], &[a.proof, b.proof, c3.proof], VerifyAction::VerifyOnly)
         },
         15 => {
             // volume: tens of thousands of DISTINCT encodings (half of them points, half mostly not) go through the library's
